@@ -233,7 +233,7 @@ func (x *X) Tokens(sp spaces.Space, maxLen int) []byte {
 		}
 		in = append(in, sp.Tokens[k-1]...)
 	}
-	return in
+	return append(in, sp.Suffix...)
 }
 
 // Protect runs f and reports whether it panicked (framework errors propagate).
@@ -411,7 +411,11 @@ func (c *Ctx) Explore(name, doc string, bound, maxLen int, d func(x *X)) {
 
 // Inputs explores every input of at most maxLen tokens of the space.
 func (c *Ctx) Inputs(sp spaces.Space, maxLen int, f func(x *X, in []byte)) {
-	c.Explore(sp.Name, fmt.Sprintf("all inputs of <=%d tokens over %d tokens: %s", maxLen, len(sp.Tokens), sp.Doc), -1, maxLen, func(x *X) {
+	doc := fmt.Sprintf("all inputs of <=%d tokens over %d tokens: %s", maxLen, len(sp.Tokens), sp.Doc)
+	if sp.Suffix != "" {
+		doc += fmt.Sprintf(" (every input followed by %q)", sp.Suffix)
+	}
+	c.Explore(sp.Name, doc, -1, maxLen, func(x *X) {
 		in := x.Tokens(sp, maxLen)
 		f(x, in)
 	})
